@@ -721,6 +721,33 @@ func genPlanOpt(seed uint64, prop string, cold bool) *Plan {
 		p.PoolDec = append(p.PoolDec, d)
 	}
 	p.Slab = r.chance(0.35)
+	if prop == "C14" {
+		p.AliasArgs = r.chance(0.3)
+		for k := r.intn(4); k > 0; k-- {
+			ver := versions[r.intn(4)]
+			switch r.intn(3) {
+			case 0:
+				p.SharedErrs = append(p.SharedErrs, ErrSpec{Ver: ver, K: "get", S: genMetric(r, ver, 1)})
+			case 1:
+				m := specs[ver].Metrics[r.intn(len(specs[ver].Metrics))]
+				p.SharedErrs = append(p.SharedErrs, ErrSpec{Ver: ver, K: "set", S: genMetric(r, ver, 0.5), S2: nearMiss(r, r.pick(m.Values))})
+			default:
+				p.SharedErrs = append(p.SharedErrs, ErrSpec{Ver: ver, K: "parse", S: mutate(r, genValid(r, ver), ver)})
+			}
+		}
+		if len(p.SharedErrs) > 0 {
+			// every task looks at the shared errors now and then
+			for t := range p.Tasks {
+				for k := 1 + r.intn(3); k > 0 && len(p.Tasks[t]) > 0; k-- {
+					at := r.intn(len(p.Tasks[t]) + 1)
+					op := Op{K: kErrStr, C: -1, D: r.intn(len(p.SharedErrs))}
+					ops := append([]Op{}, p.Tasks[t][:at]...)
+					ops = append(ops, op)
+					p.Tasks[t] = append(ops, p.Tasks[t][at:]...)
+				}
+			}
+		}
+	}
 	p.LoudObs = cold && prop != "C14" && r.chance(0.6)
 	if hot {
 		p.Policy = "hot-" + p.Policy
